@@ -27,6 +27,9 @@ func runC18(p *eng.Prog, r *eng.Report, tier string) {
 	// C18.23 (= C09.17 / C10.10): no cycle in the lock-order graph: a deadlock between a
 	// writer and Close, or between the serve loop and a requester, ends every guarantee of this property
 	lockOrder(c, "C18.23")
+	// C18.27 (= C06.2): the room's answer to a join / leave reaches the waiting call: the hand-off depends on
+	// the id, the stanza name and the reply type only
+	c06HandoffAs(c, "C18.27")
 	c.r.Floor("C18.25", "blocking channel operations in muc", lockHeldAcrossChannelOp(c, "C18.25", "muc."), 3)
 	// C18.24 (= C06.30): a pending join taken out of Channel.join is completed, found cancelled or put back
 	c.r.Floor("C18.24", "hand-off records received in muc", receivedCloserNotDropped(c, "C18.24", func(f *eng.Fn) bool { return strings.HasPrefix(f.Short, "muc.") }), 2)
